@@ -337,6 +337,11 @@ func (fx *FnExec) setBufOff(st *State, p *PtrV, off *Term) {
 }
 
 // bufAppend models Write: the buffer's data becomes old ++ src[soff:soff+n] in a fresh backing array.
+// BufAppend is the exported form of bufAppend (used by derived codec contracts).
+func (fx *FnExec) BufAppend(st *State, p PtrV, src Content, soff, n *Term) {
+	fx.bufAppend(st, &p, src, soff, n)
+}
+
 func (fx *FnExec) bufAppend(st *State, p *PtrV, src Content, soff, n *Term) {
 	sv := fx.readPath(st, fx.heapGet(st, p.Obj), p.Path, nil).(StructV)
 	buf := sv.F[bufFldBuf].(SliceV)
@@ -352,13 +357,19 @@ func (fx *FnExec) bufAppend(st *State, p *PtrV, src Content, soff, n *Term) {
 			base = CopyC(base, BV64(0), fx.sliceContent(st, buf), buf.Off, buf.Len)
 		}
 	} else if buf.Obj != nil {
-		if buf.Off.IsConst() && buf.Off.Val == 0 {
+		if _, isVec := fx.sliceContent(st, buf).(CVec); isVec {
+			// explicit fixed-size content cannot grow: re-base it onto an unbounded content
+			base = &CCopy{B: CZero{8}, DOff: BV64(0), Src: fx.sliceContent(st, buf), SOff: buf.Off, N: buf.Len}
+		} else if buf.Off.IsConst() && buf.Off.Val == 0 {
 			// octets beyond Len of the old content are never read through the new slice (Len bounds all reads
 			// before they are overwritten), so the old content can be extended in place
 			base = fx.sliceContent(st, buf)
 		} else {
 			base = CopyC(base, BV64(0), fx.sliceContent(st, buf), buf.Off, buf.Len)
 		}
+	}
+	if _, isVec := base.(CVec); isVec && !(nl.IsConst() && nl.Val <= vecMax) {
+		base = &CCopy{B: CZero{8}, DOff: BV64(0), Src: base, SOff: BV64(0), N: buf.Len}
 	}
 	base = CopyC(base, buf.Len, src, soff, n)
 	o := fx.Cx.NewObj("bytes.Buffer.buf", types.NewSlice(types.Typ[types.Uint8]), ProvFresh)
